@@ -83,3 +83,73 @@ Print Assumptions C16_map_insert_failure.
 Print Assumptions C16_map_insert_existing_needs_no_memory.
 Print Assumptions C16_map_no_leak_no_double_free.
 Print Assumptions C16_map_clear_releases_everything.
+
+(** * vector (src/vector.c; model VectorModel.v, proofs VectorProofs.v) and
+    strings (src/_string.c; StrModel.v, StrProofs.v).  The statements are the
+    ones of Properties_C09.v / Properties_C10.v specialised to a refused
+    allocation; [refused]/[grow_fails] say that the byte count is not
+    representable or that the allocator oracle (any oracle) turns the request
+    down. *)
+Require Cstl.Properties_C09 Cstl.Properties_C10.
+Module VS.
+Import VectorModel VectorProofs StrModel StrProofs.
+Local Open Scope N_scope.
+Section VecStr.
+  Variable ok : nat -> N -> bool.
+
+  (** a reserve that cannot be satisfied is the identity on the vector and on
+      the set of live blocks *)
+  Theorem C16_vector_reserve_refused al v sz :
+    alloc_ok al -> no_bad_free al -> vec_ok al v -> refused ok al v sz ->
+    exists al', reserve ok false al v sz = Ok (al', v) /\ live al' = live al.
+  Proof. exact (Properties_C09.C09_reserve_refused_is_identity ok al v sz). Qed.
+
+  (** the same for shrink_to_fit *)
+  Theorem C16_vector_shrink_refused al v :
+    alloc_ok al -> no_bad_free al -> vec_ok al v -> refused ok al v (count v) ->
+    exists al', shrink_to_fit ok false al v = Ok (al', v) /\ live al' = live al.
+  Proof. exact (Properties_C09.C09_shrink_refused_is_identity ok al v). Qed.
+
+  (** resize aborts exactly when the capacity is short and the growth refused *)
+  Theorem C16_vector_resize_aborts_iff al v sz :
+    alloc_ok al -> no_bad_free al -> vec_ok al v ->
+    (resize ok false al v sz = Abt <-> cap v < sz /\ refused ok al v sz).
+  Proof. exact (Properties_C09.C09_resize_aborts_iff ok al v sz). Qed.
+
+  (** whatever failed along the way, clearing every vector leaves no live block *)
+  Theorem C16_vector_no_leak shape s :
+    Forall (fun p => 1 <= fst (fst p)) shape ->
+    reach (VectorModel.step ok false) (sys_init shape) s ->
+    match fst (run (VectorModel.step ok false) s (map Clear (seq 0 (length (vecs s))))) with
+    | Done s' _ => live (heap s') = []
+    | _ => False
+    end.
+  Proof. exact (Properties_C09.C09_clear_all_no_leak ok shape s). Qed.
+
+  (** string growth that cannot be satisfied aborts (never faults, never
+      returns), for every representable request *)
+  Theorem C16_string_resize_aborts_iff al v n :
+    alloc_ok al -> no_bad_free al -> str_ok al v -> n < W64 ->
+    (s_resize ok false al v n = Abt <-> grow_fails ok al v n).
+  Proof. exact (Properties_C10.C10_resize_aborts_iff ok al v n). Qed.
+
+  (** string reserve never changes the string, refused or not, and never aborts *)
+  Theorem C16_string_reserve al v n :
+    alloc_ok al -> no_bad_free al -> str_ok al v ->
+    match s_reserve ok false al v n with
+    | Ok (al', v') => sabs v' = sabs v /\ count v' = count v /\ (v' = v \/ cap v' = wrap64 (n + 1))
+    | Abt => False
+    | Flt => False
+    end.
+  Proof.
+    intros A NB S. pose proof (Properties_C10.C10_reserve ok al v n A NB S) as H.
+    destruct (s_reserve ok false al v n) as [[al' v']| |]; auto. tauto.
+  Qed.
+End VecStr.
+Print Assumptions C16_vector_reserve_refused.
+Print Assumptions C16_vector_shrink_refused.
+Print Assumptions C16_vector_resize_aborts_iff.
+Print Assumptions C16_vector_no_leak.
+Print Assumptions C16_string_resize_aborts_iff.
+Print Assumptions C16_string_reserve.
+End VS.
